@@ -174,7 +174,8 @@ fn same_denotation(v: &Value, d: &J, over: &mut bool) -> Result<(), String> {
             let exp = f64::from_str(&lit).map_err(|_| format!("literal {} not convertible", lit))?;
             if exp.is_infinite() {
                 *over = true;
-                if n.is_infinite() && (*n < 0.0) == (exp < 0.0) { Ok(()) } else { Err(format!("number {} for literal {}", n, lit)) }
+                // beyond the f64 range: an infinity or the largest finite value of that sign (or rejection) are all accepted
+                if (n.is_infinite() || n.abs() == f64::MAX) && (*n < 0.0) == (exp < 0.0) { Ok(()) } else { Err(format!("number {} for literal {}", n, lit)) }
             } else if *n == exp { Ok(()) } else { Err(format!("number {:e} for literal {}", n, lit)) }
         }
         ("str", Value::String(s)) => if cps(s) == u32s(&d["s"]) { Ok(()) } else { Err(format!("string {:?}", s)) },
@@ -209,7 +210,22 @@ fn has_overflow(d: &J) -> bool {
 struct Acc { v: J, d: usize, lone: bool }
 
 #[derive(Default)]
-struct EnumStats { strings: u64, evals: u64, accepted_seen: u64, mism: u64, first: Vec<J>, samples: Vec<J>, either: u64 }
+struct EnumStats { strings: u64, evals: u64, accepted_seen: u64, mism: u64, first: Vec<J>, samples: Vec<J>, either: u64,
+                   pm_mism: u64, pm_first: Vec<J>, dup_mism: u64, dup_first: Vec<J> }
+
+/// does an object of the denotation repeat a name?  (RFC 8259 section 4 leaves the receiver's behaviour open: a value
+/// mismatch on such a text is judged by TLC against the allowed policies instead of being counted here)
+fn has_dup_keys(d: &J) -> bool {
+    let kids = d["a"].as_array().map(|a| a.iter().any(has_dup_keys)).unwrap_or(false);
+    match d["t"].as_str().unwrap_or("") {
+        "obj" => {
+            let ks: Vec<Vec<u32>> = d["k"].as_array().map(|a| a.iter().map(u32s).collect()).unwrap_or_default();
+            kids || (0..ks.len()).any(|i| (0..i).any(|j| ks[i] == ks[j]))
+        }
+        "arr" => kids,
+        _ => false,
+    }
+}
 
 fn check_one(toks: &[u8], s: &str, acc: &HashMap<Vec<u8>, Acc>, limit: usize, st: &mut EnumStats) {
     st.strings += 1;
@@ -238,11 +254,19 @@ fn check_one(toks: &[u8], s: &str, acc: &HashMap<Vec<u8>, Acc>, limit: usize, st
             (Err(_), _) => {}
         }
         if let Some(p) = problem {
-            st.mism += 1;
-            if st.first.len() < 40 {
-                st.first.push(json!({"text": s, "cps": cps(s), "tokens": toks, "call": call, "problem": p,
+            let rec = json!({"text": s, "cps": cps(s), "tokens": toks, "call": call, "problem": p,
                     "spec": e.map(|a| json!({"json": true, "depth": a.d, "denotes": a.v})).unwrap_or(json!({"json": false})),
-                    "got": match &got { Ok(v) => json!({"ok": v.serialize()}), Err(x) => json!({"err": x}) }}));
+                    "got": match &got { Ok(v) => json!({"ok": v.serialize()}), Err(x) => json!({"err": x}) }});
+            if d.is_some() {
+                // parse_max_depth is not named by the property (only Value::parse is): reported as drift, never gating
+                st.pm_mism += 1;
+                if st.pm_first.len() < 10 { st.pm_first.push(rec); }
+            } else if p.starts_with("value:") && e.map_or(false, |a| has_dup_keys(&a.v)) {
+                st.dup_mism += 1;
+                if st.dup_first.len() < 30 { st.dup_first.push(rec); }
+            } else {
+                st.mism += 1;
+                if st.first.len() < 40 { st.first.push(rec); }
             }
         } else if d.is_none() && st.samples.len() < 4 && e.is_some() && toks.len() >= 4 && (st.accepted_seen % 97 == 3) {
             st.samples.push(json!({"text": s, "accepted": got.is_ok(), "depth": e.unwrap().d}));
@@ -300,12 +324,16 @@ fn do_enum(limit: usize) {
     });
     for r in results {
         total.strings += r.strings; total.evals += r.evals; total.accepted_seen += r.accepted_seen; total.mism += r.mism; total.either += r.either;
+        total.pm_mism += r.pm_mism; total.dup_mism += r.dup_mism;
+        for x in r.pm_first { if total.pm_first.len() < 10 { total.pm_first.push(x); } }
+        for x in r.dup_first { if total.dup_first.len() < 30 { total.dup_first.push(x); } }
         for x in r.first { if total.first.len() < 40 { total.first.push(x); } }
         for x in r.samples { if total.samples.len() < 6 { total.samples.push(x); } }
     }
     out_line(&json!({"summary": true, "alphabet": alpha, "maxlen": maxlen, "strings": total.strings, "evaluations": total.evals,
         "accepted_by_spec": acc.len(), "accepted_seen": total.accepted_seen, "nontrivial": nontrivial, "either": total.either,
-        "mismatches": total.mism, "first": total.first, "samples": total.samples}));
+        "mismatches": total.mism, "first": total.first, "samples": total.samples,
+        "pm_mismatches": total.pm_mism, "pm_first": total.pm_first, "dup_value_mismatches": total.dup_mism, "dup_first": total.dup_first}));
 }
 
 // ------------------------------------------------------------------------------------------------
@@ -361,14 +389,17 @@ fn number_crosscheck(s: &str, got: &Result<Value, String>) -> &'static str {
         numbers_preorder(v, &mut nums);
         let runs = numeric_runs(s);
         if nums.is_empty() || nums.len() != runs.len() { return "na"; }
-        for (n, r) in nums.iter().zip(runs.iter()) {
-            match f64::from_str(r) {
-                Ok(x) if x == *n => {}
-                Ok(_) => return "bad",
-                Err(_) => return "na",
-            }
+        // compared as multisets: where a member ends up when a name is repeated is not the business of this check
+        // (zeros of either sign are one value; beyond the range, the largest finite value stands for the infinity)
+        let norm = |x: f64| -> u64 { if x == 0.0 { 0 } else if x.abs() == f64::MAX { (f64::INFINITY * x.signum()).to_bits() } else { x.to_bits() } };
+        let mut want: Vec<u64> = vec![];
+        for r in &runs {
+            match f64::from_str(r) { Ok(x) => want.push(norm(x)), Err(_) => return "na" }
         }
-        return "ok";
+        let mut have: Vec<u64> = nums.iter().map(|n| norm(*n)).collect();
+        want.sort();
+        have.sort();
+        return if want == have { "ok" } else { "bad" };
     }
     "na"
 }
@@ -420,7 +451,7 @@ fn roundtrip_records(doc: &str, inds: &[i64], count: &mut u64) {
             let out = std::panic::catch_unwind(move || if ind < 0 { v2.serialize() } else { v2.serialize_pretty(ind as usize) });
             leave();
             let (text, re) = match out {
-                Ok(text) => { let re = matches!(call_parse(&text, Some(1000)), Ok(b) if b == v); (text, re) }
+                Ok(text) => { let re = matches!(call_parse(&text, None), Ok(b) if b == v); (text, re) }
                 Err(_) => ("<panic>".to_string(), false),
             };
             *count += 1;
@@ -963,7 +994,7 @@ fn do_ser(n: usize, per: usize, every: usize) {
             outputs += 1;
             let (text, re) = match out {
                 Ok(text) => {
-                    let back = call_parse(&text, Some(1000));
+                    let back = call_parse(&text, None);
                     let re = matches!(&back, Ok(b) if *b == v);
                     if let Ok(b) = &back { if re && !identical(b, &v) { bits_inexact += 1; } }
                     (text, re)
